@@ -20,7 +20,7 @@ from . import core
 LEVEL = "exploration"
 RULE = ("stores populated directly with rows of a generated fixture package: 0..6 valid rows (5 functions incl. a method, a "
         "function in a module three packages deep, a generator) interleaved at drawn positions and calendar days with 0..6 stale "
-        "rows of 29 kinds (module / submodule / middle package removed, function removed, function now an int / a class / a "
+        "rows of 32 kinds (module / submodule / middle package removed, function removed, function now an int / a class / a "
         "settable property, local-scope qualname, argument / return / yield class removed, class's module or middle package "
         "removed, name now bound to a non-type, malformed generic); every single kind and every pair of kinds exhaustively around "
         "a fixed base; commands stub, stub --diff and apply, with and without -v, with and without a :qualname filter. Oracle: differential "
@@ -160,6 +160,10 @@ class Fixture:
             "method-of-name-now-list": (M, "now_list.meth.deeper", {"a": INT}, INT, None),
             "nested-class-of-name-now-none": (M, "f", {"a": T(M, "NowNone.Inner"), "b": NONE}, INT, None),
             "nested-class-of-function": (M, "f", {"a": INT, "b": NONE}, T(M, "g.Inner.Deeper"), None),
+            # the removed class sits inside a Union / Optional next to members that still resolve: the ROW is undecodable
+            "union-member-class-removed": (M, "f", {"a": T("typing", "Union", [T("builtins", "bytes"), gone_cls]), "b": NONE}, INT, None),
+            "optional-of-removed-class": (M, "f", {"a": INT, "b": NONE}, T("typing", "Union", [gone_cls, NONE]), None),
+            "nested-union-member-class-removed": (M, "g", {"x": T("typing", "List", [T("typing", "Union", [T("builtins", "float"), T(P + ".gone", "C")])])}, STR, None),
             # rows the tracer writes itself but that never decode: the class of the value reports `builtins` as its module
             # although builtins does not export it (a module object, a dict view, a coroutine, Ellipsis)
             "builtins-type-not-exported-module": (M, "f", {"a": T("builtins", "module"), "b": NONE}, INT, None),
